@@ -12,7 +12,7 @@ if os.path.exists(wt + "/SEEDED.md"):
     shutil.copy(wt + "/SEEDED.md", d + "/SEEDED.md")
 meta = {
     "property": sid.split("-")[0],
-    "files_changed": [l.split()[-1] for l in subprocess.run(["git", "-C", wt, "diff", "--stat"], capture_output=True, text=True).stdout.splitlines()[:-1]],
+    "files_changed": [l.split()[0] for l in subprocess.run(["git", "-C", wt, "diff", "--stat"], capture_output=True, text=True).stdout.splitlines()[:-1]],
     "needs_to_manifest": needs,
     "confirmed": "in the sub-agent's scratch worktree: package builds, the 80 pinned tests pass with the change (demo excluded), TestSeededDemo fails with the change and passes after `git apply -R patch.diff`",
     "checked_with": "GOSYM_REPO=<worktree> ./check %s quick (same engine and harness as the registered command, pointed at the worktree)" % sid.split("-")[0],
